@@ -30,7 +30,7 @@ def scenario_sources(prop, args):
   dumps = {}
   if prop == "C15":
     fams = {
-        "shared_tensor_2op": configs.cfg(2, ["FC", "EW2", "CONCAT"], [configs.NOQ, M("SRQ", "a8a", "w8c"), M("DRQ", "-", "w8c"), M("WO", "-", "w8c"), M("WO", "-", "w4c"), M("F16")],
+        "shared_tensor_2op": configs.cfg(2, ["FC", "EW2", "CONCAT", "UNSUP2"], [configs.NOQ, M("SRQ", "a8a", "w8c"), M("DRQ", "-", "w8c"), M("WO", "-", "w8c"), M("WO", "-", "w4c"), M("F16")],
                                          [configs.NOQ, M("SRQ", "a8a", "w8c")], [configs.NOQ], share="tensor"),
         "shared_buffer_2sub": configs.cfg(2, ["FC"], [configs.NOQ, M("SRQ", "a8a", "w8c"), M("DRQ", "-", "w8c"), M("WO", "-", "w8c"), M("WO", "-", "w8t"), M("F16")],
                                           [configs.NOQ], [configs.NOQ], share="buffer", max_sub=2),
